@@ -697,7 +697,30 @@ func (in *Inst[M, A, V, E]) BatchResult(r *lib.Rng, ms []M, deep bool) (truth, g
 	}
 	var res *A
 	var err error
+	// Unshard reads the aggregate shares: it must leave them as they are and
+	// give the same answer when asked again (aggregation may continue after an
+	// intermediate Unshard).
+	before := make([][]byte, len(final))
+	for j := range final {
+		before[j], _ = final[j].MarshalBinary()
+	}
 	p := lib.Try(in.entry("Unshard"), nil, func() { res, err = in.P.Unshard(final, uint(accepted)) })
+	if p == nil && err == nil {
+		for j := range final {
+			after, _ := final[j].MarshalBinary()
+			if !bytes.Equal(after, before[j]) {
+				in.viol("operand-changed", "Unshard:aggregate-share", lib.D("aggregator", j, "before", before[j], "after", after))
+			}
+		}
+		var res2 *A
+		var err2 error
+		if p2 := lib.Try(in.entry("Unshard"), nil, func() { res2, err2 = in.P.Unshard(final, uint(accepted)) }); p2 == nil {
+			if err2 != nil || !EqVec(in.S.Agg(res2), in.S.Agg(res)) {
+				in.viol("aggregate-mismatch", "second-unshard-differs", lib.D("first", VecStr(in.S.Agg(res)), "err2", fmt.Sprint(err2)))
+			}
+		}
+		lib.Count("unshard-repeated")
+	}
 	desc := make([]string, len(ms))
 	for i, m := range ms {
 		desc[i] = in.S.Desc(m)
